@@ -1,19 +1,19 @@
 typedef unsigned long u64;
-u64 ga = 913; u64 gb = 933; u64 gc_[4] = {1,2,3,387}; static u64 sa = 750; static u64 sb[3] = {210,5,6};
+u64 ga = 830; u64 gb = 915; u64 gc_[4] = {1,2,3,622}; static u64 sa = 598; static u64 sb[3] = {629,5,6};
 __thread u64 tva = 3; __thread u64 tvb = 4;
 extern u64 ext_a, ext_b; extern u64 ext_f(u64); extern u64 ext_g(u64);
-__attribute__((noinline)) u64 fn0(u64 x) { return x * 649 + ga + sb[0]; }
-__attribute__((noinline)) static u64 sf0(u64 x) { return (x ^ 913) + sa + gb; }
-__attribute__((noinline)) u64 fn1(u64 x) { return x * 439 + ga + sb[1]; }
-__attribute__((noinline)) static u64 sf1(u64 x) { return (x ^ 933) + sa + gb; }
-__attribute__((noinline)) u64 fn2(u64 x) { return x * 615 + ga + sb[2]; }
-__attribute__((noinline)) static u64 sf2(u64 x) { return (x ^ 387) + sa + gb; }
-__attribute__((noinline)) u64 fn3(u64 x) { return x * 335 + ga + sb[0]; }
-__attribute__((noinline)) static u64 sf3(u64 x) { return (x ^ 750) + sa + gb; }
-__attribute__((noinline)) u64 fn4(u64 x) { return x * 453 + ga + sb[1]; }
-__attribute__((noinline)) static u64 sf4(u64 x) { return (x ^ 210) + sa + gb; }
-__attribute__((noinline)) u64 fn5(u64 x) { return x * 649 + ga + sb[2]; }
-__attribute__((noinline)) static u64 sf5(u64 x) { return (x ^ 648) + sa + gb; }
+__attribute__((noinline)) u64 fn0(u64 x) { return x * 111 + ga + sb[0]; }
+__attribute__((noinline)) static u64 sf0(u64 x) { return (x ^ 830) + sa + gb; }
+__attribute__((noinline)) u64 fn1(u64 x) { return x * 947 + ga + sb[1]; }
+__attribute__((noinline)) static u64 sf1(u64 x) { return (x ^ 915) + sa + gb; }
+__attribute__((noinline)) u64 fn2(u64 x) { return x * 83 + ga + sb[2]; }
+__attribute__((noinline)) static u64 sf2(u64 x) { return (x ^ 622) + sa + gb; }
+__attribute__((noinline)) u64 fn3(u64 x) { return x * 267 + ga + sb[0]; }
+__attribute__((noinline)) static u64 sf3(u64 x) { return (x ^ 598) + sa + gb; }
+__attribute__((noinline)) u64 fn4(u64 x) { return x * 971 + ga + sb[1]; }
+__attribute__((noinline)) static u64 sf4(u64 x) { return (x ^ 629) + sa + gb; }
+__attribute__((noinline)) u64 fn5(u64 x) { return x * 111 + ga + sb[2]; }
+__attribute__((noinline)) static u64 sf5(u64 x) { return (x ^ 111) + sa + gb; }
 u64 (*const ftab[])(u64) = {fn0, fn1, fn2, fn3, fn4, fn5, sf0, sf1, sf2, sf3, sf4, sf5};
 u64 *ptab[] = { &ga, &gb, &gc_[2], &sa, &sb[1], &ext_a };
 __attribute__((constructor)) static void ctor_a(void) { ga += 1; }
